@@ -13,6 +13,7 @@ def P(name, pkg, race=False, run=None, quick=1500, thorough=14400, tiers=None, a
     return d
 
 PROPS = {
+    "C16": {"level": "exploration", "parts": [P("main", "c16", run="^TestC16$")]},
     "C01": {"level": "exploration", "parts": [P("main", "c01", run="^TestC01$")]},
     "C02": {"level": "exploration", "parts": [P("main", "c02", run="^TestC02$")]},
     "C03": {"level": "exploration", "parts": [P("main", "c03", run="^TestC03$")]},
